@@ -159,6 +159,8 @@ type Exec struct {
 	inputNames []string // order of creation: name#k
 	inputW     map[string]int
 	freeVals   map[string]uint64 // values taken by vpChoice on this path
+	// bounded schedule exploration (vpPreempt): remaining preemptions on this path, and how many were taken
+	preemptBudget, preemptions int
 
 	opaqueStrs int
 	uniq       int
@@ -961,6 +963,7 @@ func (x *Explorer) newExec(w *Worker, it Item) *Exec {
 	e.nameCount = map[string]int{}
 	e.inputW = map[string]int{}
 	e.freeVals = map[string]uint64{}
+	e.preemptBudget, e.preemptions = 0, 0
 	e.locks = map[*Value]*lockState{}
 	e.fnSeen = w.st.Fns
 	e.reach = map[string]bool{}
